@@ -24,7 +24,7 @@ class C08(Prop):
             'histories use at run level). thorough adds every 1- and 2-test history (6 outcomes x 3 argument forms) '
             'over every graph of depth <= 2 (MultiTestResult with <= 2 targets). non-trivial = at least one adapter above a leaf and at '
             'least one outcome; distinct = distinct input S-expression')
-    assumptions = ['the recording results of the 2.6 / 2.7 / Twisted / extended flavours are the harness\'s own classes (after testtools.testresult.doubles); '
+    assumptions = ['the recording results of the 2.6 / 2.7 / Twisted / extended flavours are the harness\'s own classes (after testtools.testresult.doubles, with the real signatures - trial\'s todo=None - and every argument received recorded as part of the event); '
                    'testtools.TestResult / TestByTestResult are observed through subclasses that log every call before the upcall',
                    'CPython semantics of getattr probing, try/except TypeError protocol negotiation, dict order, str.strip (whitespace table in '
                    'TTV/Model/Result.lean isSpace) and sorted() on str are modelled, not verified',
